@@ -56,6 +56,7 @@ theorem adjPos_step {c c' : Cap} {a : Act} (h : AdjPos c) (hs : step c a = some 
       intro w hw hk
       exact h w (notify_waiters_sub _ _ w hw) hk
     · split at hs <;> cases hs; exact h
+  case peerHalfClose id => split at hs <;> cases hs; exact h
   case setMax n => split at hs <;> cases hs; exact h
   case adjust id =>
     cases ht : takeAdj id c.pending with
@@ -180,6 +181,7 @@ theorem headBlocked_step {c c' : Cap} {a : Act} (h : HeadBlocked c) (hs : step c
     split at hs
     · split at hs <;> cases hs; exact notify_headBlocked _ _
     · split at hs <;> cases hs; exact h
+  case peerHalfClose id => split at hs <;> cases hs; exact h
   case setMax n => split at hs <;> cases hs; exact h
   case adjust id =>
     cases ht : takeAdj id c.pending with
@@ -294,6 +296,7 @@ theorem quiet_stable {c c' : Cap} {a : Act} (hq : quiet c = true) (hs : step c a
       refine ⟨(quiet_iff _).mpr ⟨by simp only [semRelease, notify_pending]; exact hp, ?_⟩, by simp only [semRelease, notify_realCap]⟩
       intro w hw'; exact hw w (notify_waiters_sub _ _ w hw')
     · split at hs <;> cases hs; exact ⟨hq, rfl⟩
+  case peerHalfClose id => split at hs <;> cases hs; exact ⟨hq, rfl⟩
   case setMax n => exact absurd rfl (hn n)
   case adjust id => rw [hp] at hs; simp [takeAdj] at hs
 
